@@ -1,9 +1,9 @@
 """C02 -- redelivery and reordering never change the result (DESIGN 4, C02): guards, duplicate check, mark-in-commit."""
-from . import handlers
+from . import handlers, sqlunits
 
 LEVEL = "other"
 EXPLANATION = "per-handler re-entrancy guards, frame of each write, processed mark in the same commit as the effects"
 
 
 def units(tier):
-    return handlers.units_for("C02")
+    return sqlunits.units_for("C02") + handlers.units_for("C02")
